@@ -20,6 +20,12 @@ checks = {
  "C07": dict(engine="e1", cat="model_checking",
    text="complete reachable graphs of all statecharts with final states up to the bound, donedata variants, cancel from every state, burst delivery behind the terminating event; done events, exit content and final configuration compared with the reference",
    note="reference interpreter trusted; done.invoke delivery to a parent is covered by C14", tech=E1),
+ "C08": dict(engine="e1", cat="model_checking",
+   text="every content leaf kind, every if/elseif/else and foreach structure over conditions {true,false,error} and arrays {[],[x],[x,y],error,non-array} x sub-block menu, single / framed / paired, hosted in six kinds of content position of a skeleton statechart, explored to closure on real sessions; marks, internal events (error.execution, raised events) and data values compared with the reference executor on every edge",
+   note="rfsm-expression data model only (ecmascript shares the fixed code paths but is not enumerated); reference executor encodes the error semantics of the property statement", tech=E1),
+ "C09": dict(engine="e1", cat="model_checking",
+   text="In(x) for every state x evaluated at every content position and in guards of every small statechart (rfsm-expression and null data model) against the reference configuration; early/late binding families; scripted scenarios reading every _event field back for every event kind and attempting every write to the system variables",
+   note="ecmascript data model not enumerated (it is not part of the core-feature harness build); _event read-back uses a reference-free oracle (the received event object)", tech=E1),
  "C19": dict(engine="e1", cat="model_checking",
    text="all descriptor lists (1-2 descriptors of 1-2 tokens, all spellings) x all event names of 1-3 tokens over an alphabet with shared prefixes, multi-byte characters, empty tokens and case variants, executed on real sessions and compared with a token-prefix oracle",
    note="alphabet-bounded; matching observed through the selected-transition trace of a parallel probe document",
